@@ -24,7 +24,7 @@ SplitAt(s, i, acc) ==            \* acc: <<finished components..., current compo
   ELSE IF s[i] = "/" THEN SplitAt(s, i + 1, Append(acc, <<>>))
   ELSE SplitAt(s, i + 1, [acc EXCEPT ![Len(acc)] = Append(@, s[i])])
 Components(arg) == SplitAt(arg, 1, << <<>> >>)
-(* normalised: "." components and empty components (doubled or trailing "/") dropped *)
+(* normalised: "." components and empty components (doubled or trailing "/") dropped; ".." is resolved against the tree (Resolve) *)
 Norm(cs) == SelectSeq(cs, LAMBDA c : c # <<>> /\ c # <<".">>)
 IsGlob(arg) == \E i \in 1..Len(arg) : arg[i] \in {"*", "?"}
 
@@ -71,9 +71,20 @@ GlobMatches(tree, cs) ==
                                /\ \A i \in 1..Len(cs) : Fn(cs[i], x.path[i])
                                /\ \A k \in 1..(Len(cs) - 1) : IsDir(tree, SubSeq(x.path, 1, k))}}
 
+(* ".." steps back out of an EXISTING DIRECTORY (as the file system resolves it); out of anything else the path does not exist *)
+RECURSIVE Resolve(_, _, _)
+Resolve(tree, cs, acc) ==
+  IF cs = <<>> THEN [ok |-> TRUE, path |-> acc]
+  ELSE IF cs[1] = <<".", ".">> THEN
+         IF acc # <<>> /\ Exists(tree, acc) /\ IsDir(tree, acc) THEN Resolve(tree, Tail(cs), SubSeq(acc, 1, Len(acc) - 1))
+         ELSE [ok |-> FALSE, path |-> <<>>]
+  ELSE Resolve(tree, Tail(cs), Append(acc, cs[1]))
+
 FromArg(tree, arg, recurse, exts) ==
-  LET cs == Norm(Components(arg)) IN
-  IF IsGlob(arg) THEN
+  LET r == Resolve(tree, Norm(Components(arg)), <<>>)
+      cs == r.path IN
+  IF ~r.ok THEN [err |-> TRUE, files |-> {}]
+  ELSE IF IsGlob(arg) THEN
      LET ms == GlobMatches(tree, cs) IN
      IF ms = {} THEN [err |-> TRUE, files |-> {}]
      ELSE [err |-> FALSE, files |-> UNION {FromPath(tree, m, recurse, exts, FALSE).files : m \in ms}]
